@@ -181,6 +181,29 @@ def run(tier, seed, replay=None):
         rep.broken_obligation("correspondence C03: codec models (Socks.v/Http.v/Frames.v/Target.v) and the implementation differ on %d case(s)" % n_diff, json.dumps(first))
         rep.violations[-1][1]["cases"] = [dict(kind=first["kind"], line=first["line"], meta=first["meta"])]
         rep.violations[-1][1]["targets"] = [first["meta"]["t"]] if "t" in first["meta"] else []
+    # ---- IPv6 destinations end to end, through every connector kind ---------------------------------------------
+    v6_res = None
+    if not replay:
+        import c06
+        import v6_world
+        g6 = c06.global_ipv6()
+        if g6:
+            try:
+                v6_res, alive6 = v6_world.run(driver, g6, name="c03-v6")
+                for h6 in v6_res:
+                    what = "%s client asking for [%s] through %s" % (h6["client"], g6, h6["connector"])
+                    rp6 = {"kind": "failing-input", "targets": [], "cases": [], "scenario": h6}
+                    if h6["connector"] == "c_socks4":
+                        if h6["established"] or h6["origin_contacts"]:
+                            rep.fail("C03: %s: SOCKS4 cannot carry an IPv6 destination, yet the request was %s (origin contacted %d times)" % (
+                                what, "established" if h6["established"] else "forwarded", h6["origin_contacts"]), rp6)
+                    elif not (h6["established"] and h6["echoed"] and h6["origin_contacts"] == 1):
+                        rep.fail("C03: %s: established=%s, echo=%s, the origin at that address was contacted %d time(s) (reply %s)" % (
+                            what, h6["established"], h6["echoed"], h6["origin_contacts"], h6["reply"]), rp6)
+                if not alive6:
+                    rep.fail("C03: a proxy died during the IPv6 destination scenarios", {"kind": "failing-input", "targets": [], "cases": []})
+            except (OSError, RuntimeError) as e:
+                rep.fail("C03: IPv6 destination world: %s" % str(e)[-200:], {"kind": "failing-input", "targets": [], "cases": []})
     if broken and not rep.violations:
         rep.broken_obligation(broken[0], broken[1])
     dist = {}
@@ -189,7 +212,8 @@ def run(tier, seed, replay=None):
     nt = set(l for (k, l, m), oi in zip(all_cases, all_impl) if oi.startswith("OK") or k == "out-text")
     refused = sum(1 for (k, l, m), oi in zip(all_cases, all_impl) if k.startswith("out-") and oi.startswith("ERR"))
     rep.coverage.update({
-        "evaluations": len(all_cases), "distinct_nontrivial": len(nt),
+        "ipv6_destinations_end_to_end": v6_res,
+        "evaluations": len(all_cases) + len(v6_res or []), "distinct_nontrivial": len(nt),
         "rule": "stage 0: inbound SOCKS5/SOCKS4a/RPFM/SOCKS-UDP/text decodes of hosts of length 0..512 (dense around 250-260), every delimiter/control byte at first/middle/last position, IP-looking domains, invalid UTF-8; stage 1: every destination (generated + decoded by stage 0) through all 9 writers; stage 2/3: the writers' bytes through the matching readers; non-trivial = distinct case the implementation accepted",
         "input_distribution": dist, "destinations": len(tset), "writer_refusals": refused,
         "model_impl_disagreements": n_diff,
